@@ -81,22 +81,29 @@ class Check:
         self.instance(rid, what, nontrivial)
         self.ok(rid, what, sample)
 
-    def violation(self, rid, key, site, msg, detail=None):
-        """key: stable identifier of the failing construct (no line numbers); site: file:line text"""
+    def violation(self, rid, key, site, msg, detail=None, signature=None):
+        """key: stable identifier of the failing construct (no line numbers); site: file:line text.
+        signature: what exactly goes wrong at that construct (the wrong value at fixed inputs, the defect as a closed form):
+        a recorded known finding that carries a signature covers this violation only when the signatures agree, so a
+        *different* defect at the same construct is reported."""
         full = "%s:%s" % (rid, key)
         for k in self.known:
             if k.get("status") == "known" and k["key"] == full:
-                self.known_hits.append({"key": full, "site": site, "what": k["what"], "msg": msg})
+                if k.get("signature") is not None and signature is not None and str(k["signature"]) != str(signature):
+                    self.viol.append({"rule": rid, "key": full + ":changed", "site": site, "detail": detail,
+                                      "msg": "%s  [this construct has a recorded known finding, but what fails now is different: recorded %s, now %s]" % (msg, k["signature"], signature)})
+                    return
+                self.known_hits.append({"key": full, "site": site, "what": k["what"], "msg": msg, "signature": signature})
                 # an obligation that fails with a recorded known finding is reported as such, not counted as a proof obligation
                 self.obligations -= 1
                 self.known_obligations = getattr(self, "known_obligations", 0) + 1
                 return
         self.viol.append({"rule": rid, "key": full, "site": site, "msg": msg, "detail": detail})
 
-    def fail(self, rid, key, site, msg, detail=None, what=None):
+    def fail(self, rid, key, site, msg, detail=None, what=None, signature=None):
         """instance + violation in one call"""
         self.instance(rid, what if what is not None else key)
-        self.violation(rid, key, site, msg, detail)
+        self.violation(rid, key, site, msg, detail, signature=signature)
 
     def undecide(self, rid, what, why):
         self.undecided.append({"rule": rid, "instance": what, "why": why})
